@@ -764,3 +764,321 @@ theorem reach_nk (n k : Nat) (ops : List Op) : (reach n k ops).n = n ∧ (reach 
   have := exec_nk (new n k) ops
   exact ⟨this.1, this.2.1⟩
 
+/-! ## consequences of the invariant, for any reachable state -/
+
+theorem nodupB_iff (l : List Nat) : nodupB l = true ↔ l.Nodup := by
+  induction l with
+  | nil => simp [nodupB]
+  | cons a r ih => simp [nodupB, ih, List.nodup_cons]
+
+theorem started_mem_all (s : St) (h : Full s) : ∀ i ∈ s.started, i ∈ allDials s.n := by
+  intro i hi
+  apply h.inv.perm.mem_iff.1
+  rcases h.sinv.sub i hi with h1 | h1 | h1
+  · simp [h1]
+  · simp [h1]
+  · simp [h1]
+
+theorem window_of_full (s : St) (h : Full s) :
+    s.inflight.length ≤ s.k ∧ (live s).length ≤ s.k ∧ s.maxIn ≤ s.k := by
+  have := h.inv.window; have := h.inv.maxIn
+  have : (live s).length ≤ s.inflight.length := List.length_filter_le _ _
+  omega
+
+theorem success_of_full (s : St) (h : Full s) (w : Nat) (es : List Nat) (hr : s.result = some (.ok w es)) :
+    outcomeOf s w = some true ∧ w ∈ s.started ∧ es = s.errors ∧ es.Nodup ∧ w ∉ es ∧
+    (∀ i ∈ es, outcomeOf s i = some false ∧ i ∈ s.started) := by
+  have hres := h.inv.res
+  rw [hr] at hres
+  obtain ⟨hw, rfl⟩ := hres
+  have hnd := h.inv.nodup
+  rw [hw] at hnd
+  simp only [Option.toList_some, List.append_assoc] at hnd
+  have h3 : (s.errors ++ [w]).Nodup := by
+    have := (List.nodup_append.1 hnd).2.1
+    exact (List.nodup_append.1 this).2.1
+  refine ⟨h.inv.winOutcome w hw, h.sinv.winSt w hw, rfl, (List.nodup_append.1 h3).1, ?_,
+    fun i hi => ⟨h.inv.errOutcome i hi, h.sinv.errSt i hi⟩⟩
+  intro hmem
+  exact (List.nodup_append.1 h3).2.2 w hmem w (by simp) rfl
+
+theorem failure_of_full (s : St) (h : Full s) (es : List Nat) (hr : s.result = some (.err es)) :
+    es.Perm (allDials s.n) ∧ es = s.errors ∧ (∀ i ∈ es, outcomeOf s i = some false ∧ i ∈ s.started) ∧
+    (∀ i ∈ s.started, i ∈ es) := by
+  have hres := h.inv.res
+  rw [hr] at hres
+  obtain ⟨rfl, hin, hpe, hw⟩ := hres
+  have hp := h.inv.perm
+  rw [hin, hpe, hw] at hp
+  refine ⟨by simpa using hp, rfl, fun i hi => ⟨h.inv.errOutcome i hi, h.sinv.errSt i hi⟩, ?_⟩
+  intro i hi
+  rcases h.sinv.sub i hi with h1 | h1 | h1
+  · rw [hin] at h1; cases h1
+  · exact h1
+  · rw [hw] at h1; cases h1
+
+/-- `never_before_delay`, state form: every recorded start happened at a time `t` with
+`first poll + ranked delay ≤ t` -/
+theorem never_before_delay_of_full (s : St) (h : Full s) :
+    ∀ e ∈ s.startedAt, ∃ t0, s.firstPoll = some t0 ∧ t0 + delayOf s e.1 ≤ e.2 := by
+  intro e he
+  obtain ⟨t1, h1, h2⟩ := h.sinv.g3 e he
+  obtain ⟨t0, h3, h4⟩ := h.sinv.g5 _ h1
+  exact ⟨t0, h3, by simp only at h4; omega⟩
+
+theorem gate_of_full (s : St) (h : Full s) : gateOk (delayOf s) s.firstPoll s.startedAt = true := by
+  unfold gateOk
+  rw [List.all_eq_true]
+  intro e he
+  obtain ⟨t0, h1, h2⟩ := never_before_delay_of_full s h e he
+  rw [h1]; simpa using h2
+
+theorem spec_of_full (s : St) (h : Full s) : specKey s.n s.k s.outcomes (obsOf s) = "" := by
+  have hout : ∀ i, (s.outcomes.find? (fun x => x.1 == i)).map (fun x => x.2) = outcomeOf s i := fun _ => rfl
+  obtain ⟨w1, w2, w3⟩ := window_of_full s h
+  have hnd : nodupB s.started = true := (nodupB_iff _).2 h.inv.startedNodup
+  have hrange : s.started.all (fun i => decide (1 ≤ i) && decide (i ≤ s.n)) = true := by
+    rw [List.all_eq_true]
+    intro i hi
+    have := started_mem_all s h i hi
+    simp only [allDials, List.mem_range'_1] at this
+    simp only [Bool.and_eq_true, decide_eq_true_eq]; omega
+  unfold specKey
+  simp only [obsOf, hout]
+  split
+  · rename_i hc
+    exfalso
+    rw [Bool.or_eq_true] at hc
+    rcases hc with h1 | h1
+    · have := of_decide_eq_true h1; omega
+    · have := of_decide_eq_true h1; omega
+  split
+  · rename_i hc
+    exfalso
+    rw [Bool.or_eq_true] at hc
+    rcases hc with h1 | h1
+    · rw [hnd] at h1; cases h1
+    · rw [hrange] at h1; cases h1
+  split
+  · rfl
+  · rename_i w es hr
+    obtain ⟨a1, a2, a3, a4, _, a6⟩ := success_of_full s h w es hr
+    have e1 : s.started.contains w = true := by simpa using a2
+    have e2 : (es.all fun i => s.started.contains i && outcomeOf s i == some false) = true := by
+      rw [List.all_eq_true]
+      intro i hi
+      have := a6 i hi
+      simp [this.1, this.2]
+    simp [e1, a1, e2, (nodupB_iff es).2 a4]
+    rw [if_pos a2, if_neg]
+    rintro ⟨x, hx, hx'⟩
+    exact hx' (a6 x hx).2 (a6 x hx).1
+  · rename_i es hr
+    obtain ⟨b1, b2, b3, b4⟩ := failure_of_full s h es hr
+    have hndE : es.Nodup := b1.nodup_iff.2 (allDials_nodup _)
+    have e1 : (s.started.any fun i => outcomeOf s i == some true && !es.contains i) = false := by
+      rw [List.any_eq_false]
+      intro i hi
+      have := b4 i hi
+      simp [this]
+    have e2 : (es.all fun i => outcomeOf s i == some false) = true := by
+      rw [List.all_eq_true]; intro i hi; simp [(b3 i hi).1]
+    have e3 : es.all s.started.contains = true := by
+      rw [List.all_eq_true]; intro i hi; simpa using (b3 i hi).2
+    have e4 : s.started.all es.contains = true := by
+      rw [List.all_eq_true]; intro i hi; simpa using b4 i hi
+    simp [e1, e2, e3, e4, (nodupB_iff es).2 hndE]
+    intro x hx _
+    exact b4 x hx
+
+theorem pollLoop_resolved (fuel : Nat) (s : St) (h : s.result.isSome = true) : pollLoop fuel s = s := by
+  cases fuel <;> simp [pollLoop, h]
+
+/-- `none_after_finish`, step form: once the dial has resolved no op starts anything -/
+theorem none_after_finish_step (s : St) (o : Op) (h : s.result.isSome = true) :
+    (step s o).1.started = s.started ∧ (step s o).1.startedAt = s.startedAt ∧ (step s o).1.result = s.result := by
+  cases o with
+  | complete i b => simp [step, complete, h]
+  | poll =>
+    simp only [step, poll]
+    split
+    · rw [pollLoop_resolved _ _ h]; exact ⟨rfl, rfl, rfl⟩
+    · rw [pollLoop_resolved _ _ (by exact h)]; exact ⟨rfl, rfl, rfl⟩
+  | adv d => simp [step, advance, h]
+
+/-! ## THE theorems: `ConcurrentDial` -/
+
+/-- **C08.inflight_le_k** — at most `k` dials are in the `FuturesUnordered`, hence at most `k`
+started-and-unfinished transport dials, in every reachable state; also the running maximum. -/
+theorem inflight_le_k (n k : Nat) (hk : 0 < k) (ops : List Op) :
+    (reach n k ops).inflight.length ≤ k ∧ (live (reach n k ops)).length ≤ k ∧ (reach n k ops).maxIn ≤ k := by
+  have h := window_of_full _ (full_exec _ (full_new n k hk) ops)
+  rw [show (Machine.exec step (new n k) ops).k = k from (reach_nk n k ops).2] at h
+  exact h
+
+/-- **C08.started_once** (= `at_most_once`) — every address is attempted at most once: the list of
+started dials has no duplicates, and not-yet-started / in-flight / failed / winning dials partition the input. -/
+theorem started_once (n k : Nat) (hk : 0 < k) (ops : List Op) :
+    (reach n k ops).started.Nodup ∧
+    ((reach n k ops).pending ++ (reach n k ops).inflight ++ (reach n k ops).errors
+      ++ (reach n k ops).winner.toList).Perm (allDials n) := by
+  have h := inv_reach n k hk ops
+  have hp := h.perm
+  rw [(reach_nk n k ops).1] at hp
+  exact ⟨h.startedNodup, hp⟩
+
+/-- **C08.success_sound** — `Ok(w, es)`: `w` was attempted and its transport dial succeeded; `es` are
+exactly the dials that failed before, each attempted, each failed, no duplicates. -/
+theorem success_sound (n k : Nat) (hk : 0 < k) (ops : List Op) (w : Nat) (es : List Nat)
+    (hr : (reach n k ops).result = some (.ok w es)) :
+    outcomeOf (reach n k ops) w = some true ∧ es = (reach n k ops).errors ∧ es.Nodup ∧ w ∉ es ∧
+    ∀ i ∈ es, outcomeOf (reach n k ops) i = some false := by
+  obtain ⟨a1, _, a3, a4, a5, a6⟩ := success_of_full _ (full_exec _ (full_new n k hk) ops) w es hr
+  exact ⟨a1, a3, a4, a5, fun i hi => (a6 i hi).1⟩
+
+/-- **C08.failure_reports_all** — `Err(es)`: every one of the `n` addresses was attempted and failed,
+`es` lists each exactly once. -/
+theorem failure_reports_all (n k : Nat) (hk : 0 < k) (ops : List Op) (es : List Nat)
+    (hr : (reach n k ops).result = some (.err es)) :
+    es.Perm (allDials n) ∧ ∀ i ∈ es, outcomeOf (reach n k ops) i = some false := by
+  obtain ⟨b1, _, b3, _⟩ := failure_of_full _ (full_exec _ (full_new n k hk) ops) es hr
+  rw [show (Machine.exec step (new n k) ops).n = n from (reach_nk n k ops).1] at b1
+  exact ⟨b1, fun i hi => (b3 i hi).1⟩
+
+theorem no_failure_after_success (n k : Nat) (hk : 0 < k) (ops : List Op) (es : List Nat) (i : Nat)
+    (hi : i ∈ allDials n) (hr : (reach n k ops).result = some (.err es)) :
+    outcomeOf (reach n k ops) i ≠ some true := by
+  obtain ⟨hp, ho⟩ := failure_reports_all n k hk ops es hr
+  have := ho i (hp.mem_iff.2 hi)
+  rw [this]; simp
+
+theorem resolves_when_empty (s : St) (fuel : Nat) (h1 : s.result = none) (h2 : s.inflight = []) :
+    (pollLoop (fuel + 1) s).result = some (.err s.errors) := by
+  simp [pollLoop, h1, h2]
+
+/-! ## THE theorems: `SmartDial` (and, a fortiori, `ConcurrentDial` with all delays 0) -/
+
+/-- **C08.never_before_delay** — for every history of outcomes, clock advances and polls of a
+`SmartDial` over dials pushed in `order` with ranked delays `delays`: a dial recorded as started at
+time `t` satisfies `t ≥ (time of the first poll) + (its ranked delay)`. -/
+theorem never_before_delay (order : List Nat) (delays : List (Nat × Nat))
+    (hp : order.Perm (allDials order.length)) (ops : List Op) :
+    ∀ e ∈ (reachS order delays ops).startedAt,
+      ∃ t0, (reachS order delays ops).firstPoll = some t0 ∧
+        t0 + ((delays.find? (·.1 == e.1)).map (·.2)).getD 0 ≤ e.2 := by
+  intro e he
+  have h := full_exec _ (full_newSmart order delays hp) ops
+  obtain ⟨t0, h1, h2⟩ := never_before_delay_of_full _ h e he
+  refine ⟨t0, h1, ?_⟩
+  have hd : (Machine.exec step (newSmart order delays) ops).delays = delays := (exec_nk _ ops).2.2
+  unfold delayOf at h2
+  rw [hd] at h2
+  exact h2
+
+/-- **C08.at_most_once** — the started list is duplicate-free and is exactly the list of recorded
+starts: no dial is started twice, none without passing its gate. -/
+theorem at_most_once (order : List Nat) (delays : List (Nat × Nat))
+    (hp : order.Perm (allDials order.length)) (ops : List Op) :
+    (reachS order delays ops).started.Nodup ∧
+    (reachS order delays ops).startedAt.map (·.1) = (reachS order delays ops).started := by
+  have h := full_exec _ (full_newSmart order delays hp) ops
+  exact ⟨h.inv.startedNodup, h.sinv.g0⟩
+
+/-- **C08.none_after_finish** — once the dial has resolved (success while delayed addresses are
+still waiting included) no further op starts any dial, for any continuation of the history. -/
+theorem none_after_finish (s0 : St) (ops more : List Op)
+    (hres : (Machine.exec step s0 ops).result.isSome = true) :
+    (Machine.exec step s0 (ops ++ more)).started = (Machine.exec step s0 ops).started ∧
+    (Machine.exec step s0 (ops ++ more)).startedAt = (Machine.exec step s0 ops).startedAt := by
+  have key : ∀ (more : List Op) (s : St), s.result.isSome = true →
+      (Machine.exec step s more).started = s.started ∧ (Machine.exec step s more).startedAt = s.startedAt := by
+    intro more
+    induction more with
+    | nil => intro s _; exact ⟨rfl, rfl⟩
+    | cons o r ih =>
+      intro s hs
+      obtain ⟨e1, e2, e3⟩ := none_after_finish_step s o hs
+      have := ih (step s o).1 (by rw [e3]; exact hs)
+      simp only [Machine.exec, List.foldl_cons] at this ⊢
+      exact ⟨this.1.trans e1, this.2.trans e2⟩
+  have := key more (Machine.exec step s0 ops) hres
+  simpa [Machine.exec, List.foldl_append] using this
+
+/-- **C08.smart_once** — the success / failure clauses for `SmartDial`. -/
+theorem smart_once (order : List Nat) (delays : List (Nat × Nat))
+    (hp : order.Perm (allDials order.length)) (ops : List Op) :
+    (reachS order delays ops).started.Nodup ∧
+    (∀ es, (reachS order delays ops).result = some (.err es) → es.Perm (allDials order.length)) ∧
+    (∀ w es, (reachS order delays ops).result = some (.ok w es) →
+      outcomeOf (reachS order delays ops) w = some true ∧ w ∈ (reachS order delays ops).started) := by
+  have h := full_exec _ (full_newSmart order delays hp) ops
+  refine ⟨h.inv.startedNodup, ?_, ?_⟩
+  · intro es hr
+    have := (failure_of_full _ h es hr).1
+    rw [show (Machine.exec step (newSmart order delays) ops).n = order.length from (exec_nk _ ops).1] at this
+    exact this
+  · intro w es hr
+    obtain ⟨a1, a2, _⟩ := success_of_full _ h w es hr
+    exact ⟨a1, a2⟩
+
+/-- **C08.spec_accepts_model** — in every state reachable from `ConcurrentDial::new` or
+`SmartDial::new` by any op history, the executable Spec (all static clauses and the delay-gate clause)
+accepts the model's own observation: a Spec failure on the implementation can never be a false alarm
+of the Spec relative to the model. -/
+theorem spec_accepts_model (s0 : St) (h0 : Full s0) (ops : List Op) :
+    specKey (Machine.exec step s0 ops).n (Machine.exec step s0 ops).k (Machine.exec step s0 ops).outcomes
+      (obsOf (Machine.exec step s0 ops)) = "" ∧
+    gateOk (delayOf (Machine.exec step s0 ops)) (Machine.exec step s0 ops).firstPoll
+      (Machine.exec step s0 ops).startedAt = true :=
+  ⟨spec_of_full _ (full_exec s0 h0 ops), gate_of_full _ (full_exec s0 h0 ops)⟩
+
+theorem spec_accepts_model_concurrent (n k : Nat) (hk : 0 < k) (ops : List Op) :
+    specKey n k (reach n k ops).outcomes (obsOf (reach n k ops)) = "" := by
+  have := (spec_accepts_model (new n k) (full_new n k hk) ops).1
+  rw [(exec_nk (new n k) ops).1, (exec_nk (new n k) ops).2.1] at this
+  exact this
+
+theorem spec_accepts_model_smart (order : List Nat) (delays : List (Nat × Nat))
+    (hp : order.Perm (allDials order.length)) (ops : List Op) :
+    specKey order.length (max order.length 1) (reachS order delays ops).outcomes (obsOf (reachS order delays ops)) = "" ∧
+    gateOk (fun a => ((delays.find? (·.1 == a)).map (·.2)).getD 0) (reachS order delays ops).firstPoll
+      (reachS order delays ops).startedAt = true := by
+  have h := spec_accepts_model (newSmart order delays) (full_newSmart order delays hp) ops
+  have e := exec_nk (newSmart order delays) ops
+  refine ⟨?_, ?_⟩
+  · have := h.1; rw [e.1, e.2.1] at this; exact this
+  · have := h.2
+    have hd : delayOf (Machine.exec step (newSmart order delays) ops)
+        = fun a => ((delays.find? (·.1 == a)).map (·.2)).getD 0 := by
+      funext a; unfold delayOf; rw [e.2.2]; rfl
+    rw [hd] at this; exact this
+
+/-! non-vacuity / examples -/
+example : (poll (complete (complete (poll (new 3 2)) 1 false) 2 false)).started = [1, 2, 3] := by decide
+example : (poll (complete (poll (complete (complete (poll (new 3 2)) 1 false) 2 false)) 3 false)).result
+    = some (.err [1, 2, 3]) := by decide
+example : (poll (complete (complete (poll (new 3 1)) 1 false) 2 true)).result = some (.ok 2 [1]) := by decide
+/-- SmartDial: dial 2 (delay 250) is not started at 249 ms, is started at 250 ms; after dial 1 succeeds
+dial 3 (delay 1000) never starts -/
+example : (poll (advance (poll (newSmart [1, 2, 3] [(1, 0), (2, 250), (3, 1000)])) 249)).started = [1] := by decide
+example : (poll (advance (poll (advance (poll (newSmart [1, 2, 3] [(1, 0), (2, 250), (3, 1000)])) 249)) 1)).started
+    = [1, 2] := by decide
+example : (poll (advance (poll (complete (poll (newSmart [1, 2, 3] [(1, 0), (2, 250), (3, 1000)])) 1 true)) 5000)).started
+    = [1] := by decide
+
+end C08
+
+#print axioms C08.inflight_le_k
+#print axioms C08.started_once
+#print axioms C08.success_sound
+#print axioms C08.failure_reports_all
+#print axioms C08.no_failure_after_success
+#print axioms C08.smart_once
+#print axioms C08.resolves_when_empty
+#print axioms C08.inv_reach
+#print axioms C08.never_before_delay
+#print axioms C08.at_most_once
+#print axioms C08.none_after_finish
+#print axioms C08.spec_accepts_model
+#print axioms C08.spec_accepts_model_concurrent
+#print axioms C08.spec_accepts_model_smart
